@@ -30,8 +30,41 @@ const SPEC: Spec = Spec {
     watchdog_thorough_s: 14400,
 };
 
+/// One dedicated case per over-aligned value type and service variant: keeps the known finding
+/// visible and turns into a plain violation should the finding be closed without a repair.
+fn probe_overaligned(ctx: &mut Ctx) {
+    use iceoryx2::prelude::*;
+    use payload::Payload;
+    const PART: &str = "probe.overaligned_value";
+    if !ctx.part_enabled(PART) || (ctx.worker != 0 && ctx.replay.is_none()) {
+        return;
+    }
+    fn one<S: Service, T: Payload>() -> Option<String> {
+        match sut::Board::<S, T>::new(1, T::make(0)) {
+            Ok(b) => {
+                b.finish();
+                None
+            }
+            Err(f) => Some(f.message),
+        }
+    }
+    let cases: [(&str, fn() -> Option<String>); 4] = [
+        ("V16a16 local", one::<local::Service, payload::V16a16>),
+        ("V16a16 ipc", one::<ipc::Service, payload::V16a16>),
+        ("V64a64 local", one::<local::Service, payload::V64a64>),
+        ("V64a64 ipc", one::<ipc::Service, payload::V64a64>),
+    ];
+    for (k, (name, f)) in cases.iter().enumerate() {
+        let seen = f();
+        let mut obs = vcore::Obs::default();
+        obs.class(if seen.is_some() { "probe_overaligned_value_refused" } else { "probe_overaligned_value_accepted" });
+        ctx.record(PART, k as u64, &obs, || serde_json::json!(name));
+        ctx.probe_finding(PART, sut::OVERALIGNED, seen, serde_json::json!(name));
+    }
+}
+
 fn body(ctx: &mut Ctx) {
-    iceoryx2_log::set_log_level(iceoryx2_log::LogLevel::Fatal);
+    iceoryx2_log::set_log_level(if std::env::var("C12_LOG").is_ok() { iceoryx2_log::LogLevel::Debug } else { iceoryx2_log::LogLevel::Fatal });
     if let Err(e) = payload::self_test() {
         ctx.violation("selftest", &Failure::new("harness.payload_encoding", e), serde_json::json!(null));
         return;
@@ -41,6 +74,7 @@ fn body(ctx: &mut Ctx) {
         checks_ice::limits::c08_parts(ctx);
         return;
     }
+    probe_overaligned(ctx);
     // sequential and stress parts use all CPUs; the scheduler parts pin the worker to one
     seq::parts(ctx);
     stress::part(ctx);
